@@ -114,7 +114,55 @@ func decodeOnce(entry int, data []byte, chunking int) decodeOutcome {
 
 var corruptKinds = []string{"trunc", "cookie", "count", "keyswap", "keydup", "card", "runflag", "offset", "array-unsorted", "array-dup",
 	"run-overlap", "run-adjacent", "run-wrap", "run-zero", "bitmap-bits", "trailing", "byteflip", "random"}
-var frozenKinds = []string{"f-trunc", "f-typecode", "f-count", "f-header-count", "f-cookie", "f-byteflip", "f-extra"}
+var frozenKinds = []string{"f-trunc", "f-typecode", "f-count", "f-header-count", "f-cookie", "f-byteflip", "f-extra", "f-gen", "f-gen", "f-gen"}
+
+// genFrozen GENERATES a frozen buffer from random tables instead of damaging a valid one: 1..3 chunks, extreme
+// counts, and an arena whose length is the exact one, the exact one minus one chunk's payload, empty, or
+// one byte too long - the combinations a decoder's two size computations must agree on.
+func genFrozen(r *rand.Rand) []byte {
+	n := 1 + r.Intn(3)
+	types := make([]byte, n)
+	counts := make([]uint16, n)
+	sizes := make([]int, n)
+	total := 0
+	for i := range types {
+		types[i] = byte(1 + r.Intn(3))
+		counts[i] = pick(r, []uint16{0, 1, 2, 4095, 4096, 65535, 65535, uint16(r.Intn(65536))})
+		switch types[i] {
+		case 1:
+			sizes[i] = 8192
+		case 2:
+			sizes[i] = 2 * (int(counts[i]) + 1)
+		default:
+			sizes[i] = 4 * int(counts[i])
+		}
+		total += sizes[i]
+	}
+	arena := total
+	switch r.Intn(5) {
+	case 0:
+		arena = total - sizes[r.Intn(n)]
+	case 1:
+		arena = 0
+	case 2:
+		arena = total + 1
+	case 3:
+		arena = total &^ 1
+	}
+	out := make([]byte, arena, arena+5*n+4)
+	r.Read(out)
+	key := uint16(r.Intn(100))
+	for i := 0; i < n; i++ {
+		out = binary.LittleEndian.AppendUint16(out, key)
+		key += uint16(1 + r.Intn(3))
+	}
+	for i := 0; i < n; i++ {
+		out = binary.LittleEndian.AppendUint16(out, counts[i])
+	}
+	out = append(out, types...)
+	out = binary.LittleEndian.AppendUint32(out, 13766|uint32(n)<<15)
+	return out
+}
 
 // corruptPortable applies kind to a valid stream (located with the independent parser). ok=false when the
 // kind does not apply to this stream (e.g. no run chunk).
@@ -283,6 +331,8 @@ func corruptFrozen(b []byte, kind string, r *rand.Rand) ([]byte, bool) {
 	out := append([]byte(nil), b...)
 	n := f.N
 	switch kind {
+	case "f-gen":
+		return genFrozen(r), true
 	case "f-trunc":
 		if len(out) == 0 {
 			return nil, false
@@ -298,7 +348,7 @@ func corruptFrozen(b []byte, kind string, r *rand.Rand) ([]byte, bool) {
 			return nil, false
 		}
 		p := len(out) - 4 - 3*n + 2*r.Intn(n)
-		binary.LittleEndian.PutUint16(out[p:], pick(r, []uint16{0, 65535, 4096, uint16(r.Intn(65536))}))
+		binary.LittleEndian.PutUint16(out[p:], pick(r, []uint16{0, 65535, 65535, 65534, 4095, 4096, uint16(r.Intn(65536))}))
 	case "f-header-count":
 		v := pick(r, []uint32{65537, 1 << 16, 0x1FFFF, uint32(n + 1), 0})
 		binary.LittleEndian.PutUint32(out[len(out)-4:], 13766|v<<15)
@@ -368,7 +418,7 @@ func cmdFuzzDec(args []string) {
 		if r.Intn(2) == 0 {
 			src.RunOptimize()
 		}
-		frozen := r.Intn(4) == 0
+		frozen := r.Intn(3) == 0
 		var data []byte
 		kind := ""
 		prefix := false
